@@ -387,7 +387,175 @@ def build_T16d(tree):
     return '\n\n'.join(parts), hashlib.sha256(''.join(shas).encode()).hexdigest()
 
 
+# ---------------------------------------------------------------- T16e: loop-carried state of the query loops
+def _loads(node):
+    return {n.id for n in ast.walk(node) if isinstance(n, ast.Name) and isinstance(n.ctx, ast.Load)}
+
+
+def _stores(node):
+    return {n.id for n in ast.walk(node) if isinstance(n, ast.Name) and isinstance(n.ctx, ast.Store)}
+
+
+def _exposed(stmts, defined):
+    """(names that may be read before they are written when `stmts` run with `defined` already written,
+        names definitely written afterwards, does the block always leave the iteration)"""
+    exp = set()
+    defined = set(defined)
+    for st in stmts:
+        if isinstance(st, (ast.Continue, ast.Break)):
+            return exp, defined, True
+        if isinstance(st, (ast.Raise, ast.Return)):
+            exp |= _loads(st) - defined
+            return exp, defined, True
+        if isinstance(st, ast.Assign):
+            exp |= _loads(st.value) - defined
+            for t in st.targets:
+                exp |= (_loads(t)) - defined            # subscripts / attributes on the left
+                defined |= _stores(t)
+        elif isinstance(st, ast.AugAssign):
+            exp |= (_loads(st.value) | _stores(st.target) | _loads(st.target)) - defined
+            defined |= _stores(st.target)
+        elif isinstance(st, ast.AnnAssign):
+            if st.value is not None:
+                exp |= _loads(st.value) - defined
+                defined |= _stores(st.target)
+        elif isinstance(st, ast.Expr):
+            exp |= _loads(st) - defined
+        elif isinstance(st, ast.If):
+            exp |= _loads(st.test) - defined
+            e1, d1, t1 = _exposed(st.body, defined)
+            e2, d2, t2 = _exposed(st.orelse, defined)
+            exp |= e1 | e2
+            if t1 and t2:
+                return exp, defined, True
+            defined = d2 if t1 else d1 if t2 else (d1 & d2)
+        elif isinstance(st, ast.For):
+            exp |= _loads(st.iter) - defined
+            e1, _, _ = _exposed(st.body, defined | _stores(st.target))
+            exp |= e1
+            e2, _, _ = _exposed(st.orelse, defined)
+            exp |= e2
+        elif isinstance(st, ast.Pass):
+            pass
+        else:
+            raise Unsupported(f'statement {type(st).__name__} in a query loop')
+    return exp, defined, False
+
+
+def build_T16e(tree):
+    """For each of the three query methods: the variables ASSIGNED inside `for group_item in measurement_group_items:` that
+    an iteration may READ BEFORE it writes them (state carried from one group to the next), and the names only used as
+    result accumulators (`.append`).  Gen.queryLoopCarried : List (String × List String)."""
+    rows, shas = [], []
+    for meth in ('get_planar_roi_measurement_groups', 'get_volumetric_roi_measurement_groups', 'get_image_measurement_groups'):
+        fn = find_func(tree, f'MeasurementReport.{meth}')
+        loops = [s for s in strip_doc(fn.body) if isinstance(s, ast.For) and ast.unparse(s.target) == 'group_item'
+                 and ast.unparse(s.iter) == 'measurement_group_items']
+        if len(loops) != 1:
+            raise Unsupported(f'{meth}: loop over measurement_group_items not found')
+        loop = loops[0]
+        assigned = set()
+        for st in loop.body:
+            assigned |= _stores(st)
+        exp, _, _ = _exposed(loop.body, {'group_item'})
+        carried = sorted(exp & assigned)
+        rows.append((meth, carried))
+        if not (isinstance(strip_doc(fn.body)[-1], ast.Return) and ast.unparse(strip_doc(fn.body)[-1].value) == 'sequences'):
+            raise Unsupported(f'{meth}: does not end with `return sequences`')
+        if 'sequences' in assigned:
+            raise Unsupported(f'{meth}: the result list is reassigned inside the loop')
+        shas.append(ast.unparse(loop))
+    q = lambda x: '"' + x + '"'   # noqa: E731
+    t = lean_table('queryLoopCarried', 'List (String × List String)',
+                   ['(' + q(m) + ', [' + ', '.join(q(c) for c in cs) + '])' for m, cs in rows],
+                   doc='per query method: variables assigned in the loop over the groups that an iteration may read before writing '
+                       '(state carried from one group to the next)')
+    return t, hashlib.sha256('\n'.join(shas).encode()).hexdigest()
+
+
+# ---------------------------------------------------------------- T16f: the graphic-type entry of `matches`
+def build_T16f(tree):
+    """The `if graphic_type is not None:` block inside the loops of the planar and volumetric query, as a decision over
+    (graphic_type is a 2-D enum member, value type of the (first) reference item, graphic type equal).
+      Gen.planarGraphicEntry / Gen.volumetricGraphicEntry (is2d : Bool) (ref_vt : String) (graphic_equal : Bool) : Bool"""
+    parts, shas = [], []
+    for meth, nm in (('get_planar_roi_measurement_groups', 'planarGraphicEntry'),
+                     ('get_volumetric_roi_measurement_groups', 'volumetricGraphicEntry')):
+        fn = find_func(tree, f'MeasurementReport.{meth}')
+        loop = [s for s in strip_doc(fn.body) if isinstance(s, ast.For) and ast.unparse(s.target) == 'group_item'][0]
+        cands = [n for n in ast.walk(loop) if isinstance(n, ast.If) and ast.unparse(n.test) == 'graphic_type is not None'
+                 and 'matches.append' in ast.unparse(n)]
+        if len(cands) != 1:
+            raise Unsupported(f'{meth}: graphic-type block of the loop not found')
+        block = cands[0]
+        src = ast.unparse(fn)
+        if 'ref_value_type = ValueTypeValues(ref_item.ValueType)' not in src and \
+                'ref_value_type = ValueTypeValues(ref_items[0].ValueType)' not in src:
+            raise Unsupported(f'{meth}: ref_value_type is no longer the value type of the (first) reference item')
+
+        class R(ast.NodeTransformer):
+            def visit_Call(self, node):
+                if ast.unparse(node.func) == 'isinstance' and ast.unparse(node.args[0]) == 'graphic_type':
+                    c = ast.unparse(node.args[1])
+                    if c == 'GraphicTypeValues':
+                        return ast.Name(id='is2d', ctx=ast.Load())
+                    if c == 'GraphicTypeValues3D':
+                        return ast.UnaryOp(op=ast.Not(), operand=ast.Name(id='is2d', ctx=ast.Load()))
+                    raise Unsupported(f'isinstance(graphic_type, {c})')
+                return self.generic_visit(node)
+
+            def visit_Compare(self, node):
+                t = ast.unparse(node)
+                if t == 'found_gt == graphic_type':
+                    return ast.Name(id='graphic_equal', ctx=ast.Load())
+                if t.startswith('ref_value_type == ValueTypeValues.'):
+                    return ast.Compare(left=ast.Name(id='ref_vt', ctx=ast.Load()), ops=[ast.Eq()],
+                                       comparators=[ast.Constant(value=t.split('.')[-1])])
+                raise Unsupported(f'{meth}: comparison `{t}` in the graphic-type block')
+
+            def visit_Expr(self, node):
+                if isinstance(node.value, ast.Call) and ast.unparse(node.value.func) == 'matches.append' and len(node.value.args) == 1:
+                    return ast.Return(value=self.visit(node.value.args[0]))
+                raise Unsupported(f'{meth}: statement `{ast.unparse(node)}` in the graphic-type block')
+
+            def visit_Assign(self, node):
+                t = ast.unparse(node)
+                if t.startswith('found_gt = GraphicTypeValues(ref_item') or t.startswith('found_gt = GraphicTypeValues3D(ref_item'):
+                    if '.GraphicType)' not in t:
+                        raise Unsupported(f'{meth}: found_gt is not read from GraphicType')
+                    # the enum the stored string is read into must be the enum of the branch
+                    return None
+                raise Unsupported(f'{meth}: assignment `{t}` in the graphic-type block')
+
+            def visit_AnnAssign(self, node):
+                return None
+        stmts = [x for x in (R().visit(ast.parse(ast.unparse(st)).body[0]) for st in block.body) if x is not None]
+
+        class Clean(ast.NodeTransformer):
+            def visit_If(self, node):
+                self.generic_visit(node)
+                node.body = [b for b in node.body if b is not None] or [ast.Pass()]
+                node.orelse = [b for b in node.orelse if b is not None]
+                return node
+        stmts = [Clean().visit(x) for x in stmts]
+        for x in stmts:
+            ast.fix_missing_locations(x)
+        # 2-D branch must read the string into the 2-D enum, 3-D branch into the 3-D enum (textual)
+        txt = ' '.join(ast.unparse(block).split())
+        i2 = txt.find('isinstance(graphic_type, GraphicTypeValues)')
+        e2 = txt.find('else:', txt.find('else:', i2) + 1) if i2 >= 0 else -1
+        if 'found_gt = GraphicTypeValues(' not in txt or 'found_gt = GraphicTypeValues3D(' not in txt or \
+                txt.find('found_gt = GraphicTypeValues(') > txt.find('found_gt = GraphicTypeValues3D('):
+            raise Unsupported(f'{meth}: enum conversions of the stored graphic type changed')
+        parts.append(translate_block(stmts, nm, [('is2d', 'bool'), ('ref_vt', 'str'), ('graphic_equal', 'bool')], {},
+                                     doc=f'`{meth}`: the entry the graphic-type filter appends to `matches`'))
+        shas.append(ast.unparse(block))
+    return '\n\n'.join(parts), hashlib.sha256('\n'.join(shas).encode()).hexdigest()
+
+
 TARGETS = {
+    'T16f': {'file': 'sr/templates.py', 'build': build_T16f},
+    'T16e': {'file': 'sr/templates.py', 'build': build_T16e},
     'T16d': {'file': 'sr/templates.py', 'build': build_T16d},
     'T16a': {'file': 'sr/templates.py', 'build': build_T16a},
     'T16b': {'file': 'sr/templates.py', 'build': build_T16b},
